@@ -464,7 +464,7 @@ fn segment<'a>(nb: &'a RobddBuilder<'a, AllIteTable<BddPtr<'a>>>, cb: *mut c_voi
             "cmisc" => {
                 // the remaining exported functions, each against the Rust call it wraps
                 let a = arg(rng, &npool);
-                let which = rng.below(5);
+                let which = rng.below(6);
                 ev["a"] = json!([a, which]);
                 let (x, cx) = (npool[a], cpool[a]);
                 let ws: Vec<[f64; 4]> = (0..nv).map(|_| [rng.below(9) as f64 / 8.0, rng.below(9) as f64 / 8.0, rng.below(5) as f64 / 8.0, rng.below(5) as f64 / 8.0]).collect();
@@ -540,6 +540,42 @@ fn segment<'a>(nb: &'a RobddBuilder<'a, AllIteTable<BddPtr<'a>>>, cb: *mut c_voi
                             r
                         }),
                     ),
+                    5 => {
+                        // LARGE outputs: OR_{i<k} (x_i AND x_{i+k}) over 2k variables in a manager of its own (about 2^k nodes under the
+                        // linear order; k = 10 gives some 170 KiB of JSON); the texts of bdd_to_json and print_bdd are compared with the
+                        // native serialisation through their length and a 64-bit FNV digest
+                        let k = 8 + rng.below(3);
+                        let digest = |t: &str| {
+                            let mut h: u64 = 0xcbf29ce484222325;
+                            for b in t.as_bytes() {
+                                h = (h ^ *b as u64).wrapping_mul(0x100000001b3);
+                            }
+                            json!([t.len(), (h >> 32) as u32, (h & 0xffff_ffff) as u32])
+                        };
+                        (
+                            guarded(|| {
+                                let nb2 = RobddBuilder::<AllIteTable<BddPtr>>::new(VarOrder::linear_order(2 * k));
+                                let mut acc = BddPtr::PtrFalse;
+                                for i in 0..k {
+                                    acc = nb2.or(acc, nb2.and(nb2.var(vl(i), true), nb2.var(vl(i + k), true)));
+                                }
+                                let js = serde_json::to_string(&BDDSerializer::from_bdd(acc)).unwrap();
+                                json!({"k": k, "json": digest(&js), "print": digest(&acc.print_bdd()), "nodes": acc.count_nodes()})
+                            }),
+                            cguard(&cctx, || unsafe {
+                                let m2 = mk_bdd_manager_default_order(2 * k as u64);
+                                let mut acc = bdd_false(m2);
+                                for i in 0..k {
+                                    acc = bdd_or(m2, acc, bdd_and(m2, bdd_var(m2, i as u64, true), bdd_var(m2, (i + k) as u64, true)));
+                                }
+                                let js = CStr::from_ptr(bdd_to_json(acc)).to_string_lossy().to_string();
+                                let pr = CStr::from_ptr(print_bdd(acc)).to_string_lossy().to_string();
+                                let r = json!({"k": k, "json": digest(&js), "print": digest(&pr), "nodes": bdd_count_nodes(acc)});
+                                free_bdd_manager(m2);
+                                r
+                            }),
+                        )
+                    }
                     _ => (
                         // polynomial weights: new_polynomial (truncated at the documented 32 coefficients), set, read back, destroy;
                         // and the builder's recursion counter
